@@ -252,7 +252,7 @@ class Heap:
         px = H.pos(P, x)
         ax = [
             z3.ForAll([q, y], H2.mem(q, y) == z3.If(q == P, z3.And(H.mem(q, y), y != x), H.mem(q, y)),
-                      patterns=[H2.mem(q, y)]),
+                      patterns=[H2.mem(q, y), H.mem(q, y)]),
             z3.ForAll([q, y], H2.pos(q, y) == z3.If(z3.And(q == P, H.pos(q, y) > px), H.pos(q, y) - 1, H.pos(q, y)),
                       patterns=[H2.pos(q, y)]),
             z3.ForAll([q], H2.len(q) == z3.If(q == P, H.len(q) - 1, H.len(q)), patterns=[H2.len(q)]),
@@ -275,7 +275,7 @@ class Heap:
         ci = z3.If(idx > H.len(P), H.len(P), idx)
         ax = [
             z3.ForAll([q, y], H2.mem(q, y) == z3.If(q == P, z3.Or(H.mem(q, y), y == x), H.mem(q, y)),
-                      patterns=[H2.mem(q, y)]),
+                      patterns=[H2.mem(q, y), H.mem(q, y)]),
             z3.ForAll([q, y], H2.pos(q, y) == z3.If(q == P,
                                                     z3.If(y == x, ci, z3.If(H.pos(q, y) >= ci, H.pos(q, y) + 1, H.pos(q, y))),
                                                     H.pos(q, y)),
@@ -291,6 +291,8 @@ class Heap:
         ax.append(z3.ForAll([t], z3.Implies(H.tag(x) != t, H2.find(P, t) == H.find(P, t)), patterns=[H2.find(P, t)]))
         ax.append(z3.ForAll([t], z3.Implies(H.tag(x) != t, H2.falen(P, t) == H.falen(P, t)), patterns=[H2.falen(P, t)]))
         ax.append(z3.ForAll([t], z3.Implies(H.tag(x) == t, H2.falen(P, t) == H.falen(P, t) + 1), patterns=[H2.falen(P, t)]))
+        # derived ground lemma: after inserting x, P has a child with x's tag
+        ax.append(H2.find(P, H.tag(x)) != null)
         return H2, ax
 
     def set_tag(self, X, t):
